@@ -18,7 +18,8 @@ THEOREMS = ['Fsic.C16.' + n for n in [
     'no_backtick_identity', 'resolve_index_label', 'bound_positional', 'resolve_labels_spec',
     'resolve_labels_spec_step', 'mixed_slice_positional_start', 'mixed_slice_positional_stop',
     'builtin_spans_python_int',
-    'missing_label_keyerror', 'namespace_precedence', 'eval_no_mutation', 'undefined_name_attributeError']]
+    'missing_label_keyerror', 'namespace_precedence', 'eval_no_mutation', 'undefined_name_attributeError',
+    'eval_depends_only_on_final_store', 'earlier_evals_do_not_matter', 'rebind_then_eval']]
 RULE = ('helpers: every length n in 0..6 x value patterns (distinct floats, NaN/inf/-0.0, positive, ints) x every '
         'p, d in [-n-1, n+1] (and the default) x fills {default NaN, 0.0, -1.5, int 7, NaN; ints for int arrays} x '
         '{lag, lead, diff, dlog} - exhaustive, seed-independent. eval: (1) every bracket text over a 10-character '
@@ -27,7 +28,12 @@ RULE = ('helpers: every length n in 0..6 x value patterns (distinct floats, NaN/
         'with blanks, missing labels, undefined names, over 13 span types; (3) every combination of helper / '
         'variable / caller-local bindings of a name; (4) undefined names at edit distance 1-2 from, and far from, the '
         'variables of containers that are empty, single-variable, have names differing only by case, names that are '
-        'prefixes of each other, names equal to helper names. distinct = distinct (function, array, shift, fill) or distinct '
+        'prefixes of each other, names equal to helper names; (5) variable-name pools include names of class members '
+        '(size, values, copy, eval, reindex, NAMES, LAGS ...) and underscore twins (Tw/_Tw/__Tw), on containers, models, '
+        'pandas-mixin models and linkers; (6) histories: eval -> whole-series rebinding (list / tuple / range by attribute, '
+        'item, replace_values), in-place changes, values setter, add_variable, copy(), reindex() -> eval again, each eval '
+        'compared with the reference evaluation on the CURRENT series (and the version of the array eval is bound to with '
+        'the Lean history model). distinct = distinct (function, array, shift, fill) or distinct '
         '(span type, length, expression); non-trivial = the call returns a value')
 TRUSTED = ['NumPy float64 subtraction is IEEE-754 (mirrored by Lean Float in the driver instance); np.log is an input '
            'to the dlog model (the harness sends NumPy\'s own log values)',
@@ -214,11 +220,71 @@ VALUES = {'X': [1.0, 2.5, -3.0, 4.0, 0.5, 6.0, 7.25], 'Y': [10.0, 11.0, 12.5, 13
           'Z': [1.0, 2.0, 4.0, 0.5, 3.0, 10.0, 8.0]}
 
 
-def make_container(kind, n, span=None):
-    c = VectorContainer(span if span is not None else bc.make_span(kind, n))
-    for k, v in VALUES.items():
+ROWS = [VALUES['X'], VALUES['Y'], VALUES['Z']]
+# variable-name pools: ordinary names; names of members of the classes (legal variable names - only a careless
+# getattr(self, name) confuses them); underscore twins (`Tw` is stored under '_Tw', which is also the NAME of `_Tw`)
+EVAL_NAME_SETS = [['X', 'Y', 'Z'], ['X', 'Y', 'Z'], ['size', 'values', 'copy'], ['eval', 'reindex', 'nbytes'],
+             ['NAMES', 'LAGS', 'CODE'], ['Tw', '_Tw', '__Tw'], ['to_dataframe', '_X', 'X']]
+OBJTYPES = ['container', 'container', 'model', 'pandas_model', 'linker']
+_CLASSES = {}
+
+
+def object_class(objtype):
+    if objtype not in _CLASSES:
+        base = fsic.build_model(fsic.parse_model('YY = 0.5 * GG + 0.25 * YY[-1]'))
+        if objtype == 'pandas_model':
+            from fsic.extensions.model import PandasIndexFeaturesMixin
+
+            class PandasModel(PandasIndexFeaturesMixin, base):
+                pass
+            _CLASSES[objtype] = PandasModel
+        else:
+            _CLASSES[objtype] = base
+    return _CLASSES[objtype]
+
+
+def make_object(objtype, kind, n, span=None, names=None):
+    """A container / model / pandas-mixin model / linker over the given span with three float variables."""
+    span = span if span is not None else bc.make_span(kind, n)
+    names = ['X', 'Y', 'Z'] if names is None else names
+    if objtype == 'container':
+        c = VectorContainer(span)
+    elif objtype == 'linker':
+        c = fsic.BaseLinker({'A': object_class('model')(span)})
+    else:
+        c = object_class(objtype)(span)
+    for k, v in zip(names, ROWS):
         c.add_variable(k, v[:n], dtype=float)
     return c
+
+
+_ALLOWED = {}
+
+
+def usable_names(objtype, names):
+    """`names` with every name the object type refuses as a variable (e.g. `LAGS` on a linker, which stores `_LAGS`)
+    replaced by the ordinary name of that position."""
+    out = []
+    for i, nm in enumerate(names):
+        key = (objtype, nm)
+        if key not in _ALLOWED:
+            try:
+                o = make_object(objtype, 'range', 2, names=[])
+                o.add_variable(nm, 0.0)
+                _ALLOWED[key] = True
+            except Exception:  # noqa: BLE001
+                _ALLOWED[key] = False
+        out.append(nm if _ALLOWED[key] else 'XYZ'[i])
+    return out
+
+
+def make_container(kind, n, span=None, names=None, objtype='container'):
+    return make_object(objtype, kind, n, span=span, names=names)
+
+
+def series_of(c):
+    """The CURRENT series of an object, read from its storage (not through __getitem__)."""
+    return {k: c.__dict__['_' + k] for k in c.__dict__['index']}
 
 
 def canon_text(t):
@@ -287,8 +353,9 @@ class ExprGen:
     spelled positionally with the positions the property says it means, and helpers are the formulas of the
     property text.  `features` records which index spellings occur (they select the known-finding key)."""
 
-    def __init__(self, rng, kind, n, span):
+    def __init__(self, rng, kind, n, span, names=None):
         self.rng, self.kind, self.n, self.span = rng, kind, n, span
+        self.names = names or ['X', 'Y', 'Z']
         self.objs = list(span)
         self.texts = bc.label_texts(kind, span)
         self.spellable = [i for i, t in enumerate(self.texts) if t is not None]
@@ -305,7 +372,7 @@ class ExprGen:
         return '`' + t + '`'
 
     def var(self):
-        return self.rng.choice(['X', 'Y', 'Z'])
+        return self.rng.choice(self.names)
 
     def scalar(self):
         r = self.rng.random()
@@ -343,7 +410,8 @@ class ExprGen:
             return f'diff({v}, {d})', f"odiff(V['{v}'], {d})"
         if r < 0.92:
             d = self.rng.randrange(1, 3)
-            return f'dlog(Z, {d})', f"odiff(np.log(V['Z']), {d})"
+            z = self.names[2]   # the positive series
+            return f'dlog({z}, {d})', f"odiff(np.log(V['{z}']), {d})"
         return f'exp({v})', f"np.exp(V['{v}'])"
 
     def slice_term(self, i, j, s):
@@ -461,7 +529,7 @@ def builtins_state():
 
 def eval_oracle(case, c, rep, outcome=None):
     """container.eval(expr) == what Python/NumPy computes for the expression the property says it means."""
-    V = {k: np.array(VALUES[k][:case['n']], dtype=float) for k in VALUES}
+    V = {k: np.array(row[:case['n']], dtype=float) for k, row in zip(case.get('names') or ['X', 'Y', 'Z'], ROWS)}
     with warnings.catch_warnings():
         warnings.simplefilter('ignore')
         want = eval(case['otext'], dict(ORACLE_NS), {'V': V})  # noqa: S307 (oracle text is generated by this module)
@@ -500,7 +568,7 @@ def model_vs_impl_eval(case, c, reply, outcome, rep):
         return
     text = json.loads(reply[3:])
     ns = dict(F.builtins)
-    ns.update({k: c[k] for k in c.index})
+    ns.update(series_of(c))
     with warnings.catch_warnings():
         warnings.simplefilter('ignore')
         try:
@@ -519,9 +587,12 @@ def gen_eval_case(rng, kind=None, n=None):
     if kind == 'mixed':
         n = min(n, len(bc.MIXED))
     span = bc.make_span(kind, n)
-    g = ExprGen(rng, kind, n, span)
+    objtype = rng.choice(OBJTYPES)
+    names = usable_names(objtype, rng.choice(EVAL_NAME_SETS))
+    g = ExprGen(rng, kind, n, span, names)
     text, otext = g.build()
-    return {'kind': 'eval', 'span_kind': kind, 'n': n, 'expr': text, 'otext': otext,
+    return {'kind': 'eval', 'span_kind': kind, 'n': n, 'expr': text, 'otext': otext, 'names': names,
+            'objtype': objtype,
             'features': sorted(g.features), 'period_texts': sorted(g.period_texts)}
 
 
@@ -563,7 +634,7 @@ def check_eval_cases(ctx, rep, cases):
     reqs, held = [], []
     for case in cases:
         span = bc.make_span(case['span_kind'], case['n'])
-        c = make_container(case['span_kind'], case['n'], span=span)
+        c = make_container(case['span_kind'], case['n'], span=span, names=case.get('names'), objtype=case.get('objtype', 'container'))
         regime, outcome = eval_oracle(case, c, rep)
         rep.dist[f'eval:{bc.span_family(case["span_kind"])}:{regime}'] += 1
         for f in case['features']:
@@ -718,6 +789,193 @@ def check_undefined(ctx, rep):
                 rep.disagree('eval of an undefined name: model != impl', case, reply, impl)
 
 
+# ---- eval inside histories: "every variable name bound to its series" - the series as it is NOW -------------------------
+
+HIST_OPS = ['attr_list', 'item_tuple', 'replace_range', 'values_matrix', 'elem', 'label', 'scalar', 'attr_array',
+            'copy', 'reindex', 'add']
+REBINDING = ('attr_list', 'item_tuple', 'replace_range')
+
+
+def hist_exprs(names, texts):
+    a, b, c = names[:3]
+    out = [(a, f"V['{a}']"), (f'{a} + {b}', f"V['{a}'] + V['{b}']"),
+           (f'lag({a}) * 2 - {c}', f"olag(V['{a}'], 1) * 2 - V['{c}']"), (f'{b}[1] + {a}[-1]', f"V['{b}'][1] + V['{a}'][-1]"),
+           (f'diff({c}, 1) + {b}', f"odiff(V['{c}'], 1) + V['{b}']")]
+    if texts and texts[1] is not None:
+        out.append((f'{a}[`{texts[1]}`] * {b}', f"V['{a}'][1] * V['{b}']"))
+    return out
+
+
+def gen_history(rng, n, names, length):
+    ops = []
+    for _ in range(length):
+        kind = rng.choice(HIST_OPS if rng.random() < 0.5 else list(REBINDING))
+        nm = rng.choice(names[:3])
+        vals = [round(rng.uniform(-9, 9), 2) for _ in range(n)]
+        if kind == 'replace_range':
+            ops.append([kind, nm, rng.randrange(-3, 4)])
+        elif kind in ('elem', 'label'):
+            ops.append([kind, nm, rng.randrange(n), vals[0]])
+        elif kind == 'scalar':
+            ops.append([kind, nm, vals[0]])
+        elif kind in ('copy', 'reindex', 'values_matrix'):
+            ops.append([kind])
+        elif kind == 'add':
+            ops.append([kind, 'W%d' % len(ops)])
+        else:
+            ops.append([kind, nm, vals])
+    return ops
+
+
+def apply_hist_op(c, op, n, labels):
+    """Apply one op to the real object; returns the object to continue with (a copy / reindexed object for those)."""
+    kind = op[0]
+    if kind == 'attr_list':
+        setattr(c, op[1], list(op[2]))
+    elif kind == 'item_tuple':
+        c[op[1]] = tuple(op[2])
+    elif kind == 'replace_range':
+        c.replace_values(**{op[1]: range(op[2], op[2] + n)})
+    elif kind == 'attr_array':
+        setattr(c, op[1], np.array(op[2], dtype=float))
+    elif kind == 'values_matrix':
+        c.values = c.values * 2 + 1
+    elif kind == 'elem':
+        c.__dict__['_' + op[1]][op[2]] = op[3]
+    elif kind == 'label':
+        c[op[1], labels[op[2]]] = op[3]
+    elif kind == 'scalar':
+        setattr(c, op[1], op[2])
+    elif kind == 'add':
+        c.add_variable(op[1], 1.5)
+    elif kind == 'copy':
+        return c.copy()
+    elif kind == 'reindex':
+        return c.reindex(c.span)
+    return c
+
+
+def eval_all(c, exprs, case, step, rep, who):
+    """Every expression against the reference evaluation on the CURRENT series."""
+    bad = 0
+    V = {k: np.array(v, dtype=v.dtype, copy=True) for k, v in series_of(c).items()}
+    for text, otext in exprs:
+        with warnings.catch_warnings():
+            warnings.simplefilter('ignore')
+            want = eval(otext, dict(ORACLE_NS), {'V': V})  # noqa: S307
+        tag, got = run_eval(c, text)
+        if not (tag == 'ok' and values_equal(got, want)):
+            bad += 1
+            bc.violate(rep, 'eval-stale-after-history',
+                       f'after step {step} ({who}) of the history, eval({text!r}) = '
+                       f'{np.asarray(got).tolist() if tag == "ok" else repr(got)}; on the current series it is '
+                       f'{np.asarray(want).tolist()}', dict(case, failed_step=step, failed_expr=text))
+        rep.evaluations += 1
+    return bad
+
+
+MODEL_OP = {'attr_list': 'rebind', 'item_tuple': 'rebind', 'replace_range': 'rebind', 'elem': 'inplace',
+            'label': 'inplace', 'scalar': 'inplace', 'attr_array': 'inplace'}
+
+
+def model_ops(op, names):
+    """The op as the Lean history model sees it (per variable)."""
+    k = op[0]
+    if k in MODEL_OP:
+        return [[MODEL_OP[k], op[1]]]
+    if k == 'values_matrix':
+        return [['inplace', nm] for nm in names]
+    if k == 'add':
+        return [['add', op[1]]]
+    return [['rebind', nm] for nm in names]      # copy / reindex: a new object, every series a new array
+
+
+def run_history(case, rep, trace=None):
+    """`trace` (a list) collects, per step, (model ops so far, queried name, version of the array eval returned)."""
+    kind, n, names = case['span_kind'], case['n'], case['names']
+    span = bc.make_span(kind, n)
+    labels = list(span)
+    c = make_object(case['objtype'], kind, n, span=span, names=names)
+    exprs = hist_exprs(names, bc.label_texts(kind, span))
+    bad = eval_all(c, exprs, case, 0, rep, 'initial')
+    q = names[0]
+    mops, seen = [], {0: c.__dict__['_' + q]}
+    for step, op in enumerate(case['ops'], 1):
+        with warnings.catch_warnings():
+            warnings.simplefilter('ignore')
+            try:
+                c2 = apply_hist_op(c, op, n, labels)
+            except NotImplementedError:     # e.g. BaseLinker.reindex
+                continue
+            except Exception:  # noqa: BLE001  (an assignment / copy / reindex that fails is another property's business)
+                rep.dist['history:op-raised:' + op[0]] += 1
+                break
+        if c2 is not c:
+            # the original must still evaluate on ITS series, the new object on its own
+            bad += eval_all(c, exprs, case, step, rep, op[0] + ': original')
+            c = c2
+        bad += eval_all(c, exprs, case, step, rep, op[0])
+        if trace is not None:
+            mops.append(['eval'])
+            for mo in model_ops(op, list(c.__dict__['index']) if op[0] in ('copy', 'reindex', 'values_matrix') else names):
+                mops.append(mo)
+                if mo[1] == q and mo[0] == 'rebind':
+                    seen[len(mops)] = c.__dict__['_' + q]
+            tag, got = run_eval(c, q)
+            ver = [v for v, a in seen.items() if a is got] if tag == 'ok' else []
+            trace.append((list(mops), q, str(max(ver)) if ver else f'{tag}:not-a-known-array'))
+    return bad
+
+
+def history_cases(ctx, n_random):
+    kinds = ['range', 'list_str', 'np_int', 'period_Q', 'pd_int']
+    # core: eval -> one rebinding op -> eval, for every op kind, object type and name pool
+    for objtype in ('container', 'model', 'pandas_model', 'linker'):
+        for names in (['X', 'Y', 'Z'], ['Tw', '_Tw', '__Tw']):
+            for k, kind in enumerate(HIST_OPS):
+                rng = ctx.sub_rng('hist-core', objtype, names[0], kind)
+                ops = gen_history(rng, 4, names, 1)
+                ops[0] = gen_one(rng, kind, 4, names)
+                yield {'kind': 'eval-history', 'objtype': objtype, 'span_kind': kinds[k % len(kinds)], 'n': 4,
+                       'names': usable_names(objtype, names), 'ops': ops + [gen_one(rng, REBINDING[k % 3], 4, names)]}
+    rng = ctx.sub_rng('hist')
+    for _ in range(n_random):
+        objtype = rng.choice(OBJTYPES)
+        names = usable_names(objtype, rng.choice([['X', 'Y', 'Z'], ['X', 'Y', 'Z'], ['Tw', '_Tw', '__Tw'], ['to_dataframe', '_X', 'X']]))
+        n = rng.choice([3, 4, 5])
+        yield {'kind': 'eval-history', 'objtype': objtype, 'span_kind': rng.choice(kinds), 'n': n, 'names': names,
+               'ops': gen_history(rng, n, names, rng.choice([1, 2, 3, 4, 6]))}
+
+
+def gen_one(rng, kind, n, names):
+    for _ in range(200):
+        op = gen_history(rng, n, names, 1)[0]
+        if op[0] == kind:
+            return op
+    return ['copy']
+
+
+def check_histories(ctx, rep):
+    n_random = (250 if ctx.tier == 'quick' else 4000) * ctx.scale
+    reqs, held = [], []
+    for case in history_cases(ctx, n_random):
+        trace = [] if not ctx.oracle_only else None
+        bad = run_history(case, rep, trace)
+        for mops, q, ver in trace or []:
+            reqs.append(line('evalhist', {'helpers': sorted(F.builtins.keys()), 'vars': case['names'], 'ops': mops, 'name': q}))
+            held.append((case, ver))
+        rep.dist['history:' + case['objtype'] + (':stale' if bad else ':holds')] += 1
+        for op in case['ops']:
+            rep.dist['history-op:' + op[0]] += 1
+        rep.case(('history', json.dumps(case, sort_keys=True)), nontrivial=True, n=0,
+                 sample={'objtype': case['objtype'], 'names': case['names'], 'ops': [o[0] for o in case['ops']]}
+                 if rep.dist['history-op:copy'] == 3 else None)
+    if reqs:
+        for (case, ver), reply in zip(held, ctx.drive(reqs)):
+            if reply != ver:
+                rep.disagree('eval after a history: version of the series the name is bound to, model != impl', case, reply, ver)
+
+
 # ---- pandas partial-string labels (a year in a quarterly PeriodIndex, a month in a daily DatetimeIndex) -------------------
 
 PARTIAL = [
@@ -866,6 +1124,7 @@ def run(ctx, rep):
     check_errors(ctx, rep)
     check_undefined(ctx, rep)
     check_partial(ctx, rep)
+    check_histories(ctx, rep)
     check_ns(ctx, rep)
     rep.exhaustive = False
 
@@ -889,7 +1148,7 @@ def _replay(ctx, rep, case):
         except Exception as e:  # noqa: BLE001
             print('  model: <driver unavailable>', e)
     elif k == 'eval':
-        c = make_container(case['span_kind'], case['n'])
+        c = make_container(case['span_kind'], case['n'], names=case.get('names'), objtype=case.get('objtype', 'container'))
         regime, outcome = eval_oracle(case, c, rep)
         print('  impl :', outcome[0], outcome[1])
         try:
@@ -906,6 +1165,8 @@ def _replay(ctx, rep, case):
                 bc.violate(rep, 'eval-precedence', f'resolved to {who}, expected {want}', case)
         if bchanged:
             bc.violate(rep, 'eval-mutates-helper-table', 'fsic.functions.builtins changed by eval()', case)
+    elif k == 'eval-history':
+        print('  stale evaluations:', run_history(case, rep))
     elif k == 'eval-undefined' and 'names' in case:
         c, tag, got, changed = undefined_run(case)
         print('  impl :', tag, repr(got)[:200])
